@@ -10,14 +10,13 @@ from pathlib import Path
 from common import SPEC, MachineryError, TlcResult, parse_tla, run_tlc, tla_chunks
 
 
-def json_lines(txt: str, tag: str, limit: int | None = None, rng=None) -> list:
+def json_lines(r, tag: str, limit: int | None = None, rng=None, dedupe: bool = False) -> list:
     """Values printed by PrintT(tag \\o ToJson(v)): one quoted TLA+ string per line (optionally a seeded sample of them)."""
     import json
-    pre = '"' + tag
-    lines = [line for line in txt.splitlines() if line.startswith(pre)]
-    json_lines.last_total = len(lines)
-    if limit is not None and rng is not None and len(lines) > limit:
-        lines = rng.sample(lines, limit)
+
+    from common import tagged_lines
+    lines, total = tagged_lines(r, tag, limit, rng, dedupe)
+    json_lines.last_total = total
     return [json.loads(json.loads(line)[len(tag):]) for line in lines]
 
 
@@ -54,15 +53,16 @@ def run_model(wd: Path, name: str, cfgs: str, *, K: int = 0, faults=(), cancels=
     return r
 
 
-def schedules(r: TlcResult):
-    """-> (cfgs: id -> world cfg dict, list of (cfg id, 'done'|'open', [[a, x], ...]))"""
+def schedules(r: TlcResult, limit: int | None = None, rng=None):
+    """-> (cfgs: id -> world cfg dict, list of (cfg id, 'done'|'open', [[a, x], ...])), distinct schedules; a seeded
+    sample of `limit` of them when there are more"""
     cfgs = {}
     for ch in tla_chunks(r.out, "CFGS"):
         for c in parse_tla(ch)[1]:
             cfgs[c["id"]] = c
     out = []
     seen = set()
-    for o in json_lines(r.out, "SCHED"):
+    for o in json_lines(r, "SCHED", limit, rng, dedupe=True):
         h = [[e["a"], e["x"]] for e in o["h"]]
         key = (o["c"], tuple(map(tuple, h)))
         if key in seen:
@@ -124,8 +124,8 @@ def solo_sequences(r: TlcResult, limit: int | None = None, rng=None):
         for c in parse_tla(ch)[1]:
             cfgs[c["id"]] = c
     # the input sequences on which a monitor is false in the model: always executed on the code as well
-    vseqs = [(o["c"], o["ins"]) for o in json_lines(r.out, "VSOLO")]
-    seqs = [(o["c"], o["ins"]) for o in json_lines(r.out, "SOLO", limit, rng)]
+    vseqs = [(o["c"], o["ins"]) for o in json_lines(r, "VSOLO")]
+    seqs = [(o["c"], o["ins"]) for o in json_lines(r, "SOLO", limit, rng)]
     viol = [parse_tla(ch) for ch in tla_chunks(r.out, "MODELVIOLATION")]
     solo_sequences.violating = vseqs
     return cfgs, seqs, viol
